@@ -1,6 +1,6 @@
-(* Proofs about Model/Electrum.v (C20). *)
+(* Proofs about Model/ElectrumWallet.v (C20). *)
 From Coq Require Import NArith ZArith Arith List Lia Bool.
-From BU Require Import Base.Exn Base.Radix Base.Bytes Gen.SerbipConsts Model.Bip32Data Model.WifCodec Model.Bip38 Model.Electrum.
+From BU Require Import Base.Exn Base.Radix Base.Bytes Gen.SerbipConsts Model.Bip32Data Model.WifCodec Model.Bip38 Model.ElectrumWallet.
 From BU Require Import Lemmas.Base58 Lemmas.SerbipAux Lemmas.SerbipConstsOk Lemmas.Bip32Ser Lemmas.WifCodec.
 Import ListNotations.
 Open Scope N_scope.
